@@ -544,10 +544,19 @@ impl Prover {
         // split quotient polynomial into 4 degree `n` polynomials
         let domain_size = domain.size();
 
-        let mut t_low_vec = t_poly[0..domain_size].to_vec();
-        let mut t_mid_vec = t_poly[domain_size..2 * domain_size].to_vec();
-        let mut t_high_vec = t_poly[2 * domain_size..3 * domain_size].to_vec();
-        let mut t_fourth_vec = t_poly[3 * domain_size..].to_vec();
+        // `Polynomial` drops trailing zero coefficients, so with degenerate
+        // blinders the quotient can be shorter than the `3n + 1` coefficients
+        // the four shares are cut from: restore the dropped zeros first
+        let mut t_coeffs = t_poly.to_vec();
+        if t_coeffs.len() < 3 * domain_size + 1 {
+            t_coeffs.resize(3 * domain_size + 1, BlsScalar::zero());
+        }
+
+        let mut t_low_vec = t_coeffs[0..domain_size].to_vec();
+        let mut t_mid_vec = t_coeffs[domain_size..2 * domain_size].to_vec();
+        let mut t_high_vec =
+            t_coeffs[2 * domain_size..3 * domain_size].to_vec();
+        let mut t_fourth_vec = t_coeffs[3 * domain_size..].to_vec();
 
         // select 3 blinding factors for the quotient splitted polynomials
         let b_12 = BlsScalar::random(&mut *rng);
